@@ -210,9 +210,12 @@ class SReal:
         return self
 
     def __abs__(self):
-        if (self >= 0).__bool__():
+        c = self.concrete()
+        if c is not None:
+            return SReal(tm.const(abs(c)))
+        if self.t.op == "sqrt":
             return self
-        return -self
+        return SReal(tm.ite(tm.le(tm.const(0), self.t), self.t, tm.neg(self.t)))
 
     def __pow__(self, e):
         if isinstance(e, SReal):
@@ -252,8 +255,10 @@ class SReal:
     def _fn(name):  # noqa: N805
         def m(self):
             c = self.concrete()
-            if c is not None and name in tm._MATH and False:
-                return tm._MATH[name](c)
+            if c is not None:
+                ex = _EXACT_FN.get((name, c))
+                if ex is not None:
+                    return SReal(ex())
             return SReal(tm.fn(name, self.t))
 
         m.__name__ = name
@@ -363,6 +368,13 @@ class SReal:
 
 
 _FORMAT_HOOK = [None]
+_HALF = Fraction(1, 2)
+_EXACT_FN = {
+    ("arccos", 0): lambda: tm.mul(tm.const(_HALF), tm.PI), ("arccos", 1): lambda: tm.ZERO, ("arccos", -1): lambda: tm.PI,
+    ("arcsin", 0): lambda: tm.ZERO, ("arcsin", 1): lambda: tm.mul(tm.const(_HALF), tm.PI),
+    ("sin", 0): lambda: tm.ZERO, ("cos", 0): lambda: tm.ONE, ("tan", 0): lambda: tm.ZERO, ("arctan", 0): lambda: tm.ZERO,
+    ("log", 1): lambda: tm.ZERO, ("log10", 1): lambda: tm.ZERO, ("exp", 0): lambda: tm.ONE,
+}
 
 
 class SBool:
